@@ -30,6 +30,10 @@ func lenClass(n int) string {
 		return "len<256"
 	case n < 65536:
 		return "len<65536"
+	case n == 1<<20:
+		return "len=1MiB"
+	case n > 1<<20:
+		return "len>1MiB"
 	}
 	return "len>=65536"
 }
